@@ -241,3 +241,31 @@ def find_like(root, src, bind=None):
         if like(n, src, b):
             out.append((n, b))
     return out
+
+
+class _SuffixCanon(ast.NodeTransformer):
+    """`X[-k:] == c` / `c == X[-k:]` (c a constant of length k) -> `X.endswith(c)`; `!=` -> `not X.endswith(c)`.
+    Both hold for every X (a shorter X slices to itself, which differs from c in length)."""
+
+    def visit_Compare(self, n):
+        self.generic_visit(n)
+        if len(n.ops) != 1 or not isinstance(n.ops[0], (ast.Eq, ast.NotEq)):
+            return n
+        a, b = n.left, n.comparators[0]
+        if isinstance(a, ast.Constant):
+            a, b = b, a
+        if not (isinstance(b, ast.Constant) and isinstance(b.value, (bytes, str)) and len(b.value) >= 1 and isinstance(a, ast.Subscript)
+                and isinstance(a.slice, ast.Slice) and a.slice.upper is None and a.slice.step is None):
+            return n
+        lo = a.slice.lower
+        if not (isinstance(lo, ast.UnaryOp) and isinstance(lo.op, ast.USub) and isinstance(lo.operand, ast.Constant) and lo.operand.value == len(b.value)):
+            return n
+        call = ast.Call(func=ast.Attribute(value=a.value, attr='endswith', ctx=ast.Load()), args=[b], keywords=[])
+        out = call if isinstance(n.ops[0], ast.Eq) else ast.UnaryOp(op=ast.Not(), operand=call)
+        return ast.copy_location(out, n)
+
+
+def canon_suffix_tests(expr):
+    """A copy of `expr` with suffix comparisons spelled as endswith() calls (see _SuffixCanon)."""
+    import copy
+    return ast.fix_missing_locations(_SuffixCanon().visit(copy.deepcopy(expr)))
